@@ -218,12 +218,12 @@ CLAIMED = {
              "(parse_hosts_total); serialise-then-deserialise gives the same mappings for text-safe names (hosts_roundtrip); "
              "Zone::from(hosts) holds exactly one A/AAAA record per mapping with TTL 5, root apex, no SOA, no wildcards, and "
              "TryFrom<Zone>/from_zone_lossy give the hosts data back (hosts_zone_exact/back); Display-then-FromStr is the identity "
-             "on IPv4 addresses (ipv4_roundtrip). Model tied to the Rust code by a differential stream (IP codec, str::lines, parse, "
+             "on IPv4 and IPv6 addresses (ipv4_roundtrip, ipv6_roundtrip); every mapped name resolves in the zone to exactly its address "
+             "(hosts_zone_resolves). Model tied to the Rust code by a differential stream (IP codec, str::lines, parse, "
              "serialise, round trip, zone conversion and lookups, merge) and by runs of the real htoh/htoz/ztoh binaries.",
-        note="The IPv6 text round trip is a per-address decidable premise (v6_ok) of hosts_roundtrip, proved for IPv4 and validated "
-             "for IPv6 by the stream; std's parser/printer are modelled by hand from the toolchain's source. A name whose leftmost "
-             "label is '*' does not survive htoz | ztoh (zone text reads it as a wildcard): reported, counted in the evidence. "
-             "zone.resolve on the converted zone is checked by the stream (and C02's theorems), not by a C14 theorem.",
+        note="std's parser/printer are modelled by hand from the toolchain's source (Ip/IpModel.v) and validated against the real "
+             "std by the stream; Display-then-FromStr is proved the identity for IPv4 and IPv6. A name whose leftmost label is '*' "
+             "does not survive htoz | ztoh (zone text reads it as a wildcard): reported, counted in the evidence.",
         design="5/C14", technique="Coq proof over executable model + model/impl correspondence (extraction) + real binaries"),
     "C11": dict(
         text="Theorems about the Gallina model of zones/deserialise.rs (tokeniser, parse_rr, Zone::deserialise), for all inputs: "
@@ -240,7 +240,7 @@ CLAIMED = {
              "may stand is an owner). Interpretations D9/D10: an unterminated quoted string / an open parenthesis at end of input "
              "is accepted by the tokeniser (malformed text outside the property's fault list; generated, model = impl checked). "
              "std's Ipv4Addr/Ipv6Addr FromStr/Display are a parameter of the model (all theorems hold for every codec; the driver "
-             "instance is coq/ZoneFile/ZfIpStub.v until Ip/IpModel.v replaces it).",
+             "instance is Ip/IpModel.v via coq/ZoneFile/ZfInstance.v).",
         design="5/C11", technique="Coq proof over executable model + model/impl correspondence (extraction)"),
     "C13": dict(
         text="Escape-level theorem about the Gallina models of zones/serialise.rs and the tokeniser: escape_roundtrip -- the text "
@@ -299,6 +299,27 @@ CLAIMED = {
              "is outside the model: reloads and queries are atomic steps of the model by construction; it is observed on the real "
              "binary only (replies during a reload are exactly old or exactly new, never old after new). load is C12's model.",
         design="5/C19", technique="Coq proof over executable model + model/impl correspondence (extraction) + real-binary runs"),
+    "C09": dict(
+        text="Theorems about the Gallina model of main.rs (triage, resolve_and_build_response, handle_raw_message, the reply paths of "
+             "the UDP/TCP listen loops) and util/net.rs (send_udp_bytes_to, send_tcp_bytes, read_tcp_bytes), for EVERY input octet "
+             "string and every resolver (the resolver is an abstract function): silence exactly for inputs shorter than 2 octets or "
+             "decoding to a message with QR=1, otherwise one reply with the same ID and QR=1; opcode/RD/questions echoed; FORMERR for "
+             "undecodable input; NOTIMP for other opcodes; REFUSED exactly for several questions or an unknown type/class; RA = recursion "
+             "offered; answers/authority/AA/RCODE are a stated table of the resolver's result (SERVFAIL when it produced nothing); UDP "
+             "framing <= 512 with TC exactly when cut and nothing else touched; TCP length prefix exact, TC and cut above 65535; every "
+             "serialised message has >= 12 octets so the panic!() sites of util/net.rs are unreachable; short TCP reads give FORMERR "
+             "with the id or silence. The answer-section clause is proved outside the known class (referral from an authoritative "
+             "zone, F12) with the witness that the class is inhabited; a second witness shows a reply whose serialisation fails and is "
+             "dropped. Pure part proved; model tied to the code by (a) a differential stream through the Rust harness for the framing "
+             "functions and make_response, (b) the real release binary driven over loopback UDP/TCP in authoritative-only and "
+             "recursive mode, every reply compared with the extracted model's.",
+        note="NOT proved, only observed on the real binary by every run: 'does not crash and keeps serving' (liveness probe after every "
+             "batch, process still running at the end), tokio scheduling, socket errors. Known findings (reported, not failing): "
+             "referral-in-answer-with-aa, unserialisable-reply-silence. The reply theorems are about handle_raw_message; replies reach "
+             "the wire only if to_octets succeeds (premise encode = Ok in the framing theorems). The answer-chain theorem takes the "
+             "chain property of the local resolver (C10) and 'the resolver returns' as premises. Recursive mode is modelled and "
+             "exercised only with an unreachable upstream; forwarding mode not at all.",
+        design="5/C09, 6/F12, 7/D8", technique="Coq proof over executable model + model/impl correspondence (extraction) against the real server binary"),
 }
 
 NA_REASON = "not yet implemented in this revision of the framework (planned: see DESIGN.md section 9); not claimed"
